@@ -5,12 +5,18 @@ Model: `Strophe/Model/Compression.lean` = the staging layer of src/compression.c
 loop / read branch of src/event.c that drive it; zlib is the parameter `Codec` under the named
 hypotheses H-zlib (`Spec.Zlib.HDeflate`, `Spec.Zlib.HInflate`).
 
-Status on the current tree.  The full-strength statements `WriteTransparent`, `ReadTransparent`
-and `FreeReleasesEverything` are FALSE of the faithful model; each is refuted below by a concrete
-witness the kernel evaluates, and every witness is replayed on the real code by
-corpus/C20/*.ops (findings D22, D23, D30 on the write side, D24, D32, D33 on the read side, D31,
-D8).
-What does hold is proved as `…_partial` with the excluding hypotheses named in the docstrings.
+All statements are proved at full strength for the current tree: ANY answer schedule of the lower
+transport (all / n bytes / 0 / EAGAIN / hard error per write call), ANY fragmentation of the
+inbound bytes, elements and fragments of any size, any number of loop iterations.  They were
+false before the repairs D8, D22, D23, D24, D30, D31, D32, D33 (commits 00f739e, 2d5586b, 0bca039,
+e57c580, 3579f3e, d6f21ea, a500c92, cbd52d7); the inputs that refuted them are kept below as
+kernel-evaluated regression examples and as corpus/C20/d*.ops for the real code.
+
+The only residue: loops whose termination depends on zlib making progress (`_compression_write`'s
+do/while, `compression_read`'s for(;;), the application's loop around xmpp_run_once) carry fuel in
+the model; the theorems speak about runs in which the fuel sufficed (`diverged = false`).  The
+correspondence driver runs with fuel 4·10⁶ / 2·10⁵ and reports `z-mismatch fuel` if it is ever
+exhausted on the real zlib.
 
 `enabled_only_after_compressed` (compression is switched on only by `<compressed/>`, followed by a
 stream restart) is a statement about the `Conn` machine (`_handle_features_compress`,
@@ -43,12 +49,12 @@ theorem zlib_constants :
 
 /-! ### write side -/
 
-/-- FULL STRENGTH (false on the current tree).  For every codec satisfying H-zlib, every sequence
-    of sends and loop iterations and EVERY answer schedule of the lower transport (all / n bytes /
-    0 / EAGAIN per write call): as long as the connection is up, what the server can inflate from
-    the bytes it received is a prefix of the uncompressed stream (nothing lost, duplicated or
-    reordered), and at the end of every iteration in which the transport accepted what it was
-    offered it is exactly what the write loop has taken from the queue. -/
+/-- For every sequence of sends and loop iterations and EVERY answer schedule of the lower
+    transport (all / n bytes / 0 / EAGAIN / hard error per write call): as long as the connection
+    is up, what the server can inflate from the bytes it received is a prefix of the uncompressed
+    stream (nothing lost, duplicated or reordered), and at the end of every iteration in which
+    the transport accepted what it was offered it is exactly what the write loop has taken from
+    the queue — every stanza, complete and in order, flushed by the end of that iteration. -/
 def WriteTransparent (C : Codec) (H : HDeflate C) : Prop :=
   ∀ (dontReset : Bool) (fuel : Nat) (ops : List Op),
     (run fuel (init C dontReset) ops).connected = true →
@@ -58,228 +64,164 @@ def WriteTransparent (C : Codec) (H : HDeflate C) : Prop :=
         H.decode (run fuel (init C dontReset) ops).net =
           (submitted ops).take (acked (run fuel (init C dontReset) ops) ops))
 
-/-- What holds (any codec satisfying H-zlib, any sends, any number of iterations, elements of any
-    size): if the lower transport accepts every write completely, the server's view is always a
-    prefix of the submitted stream, and at the end of an iteration whose flush completed
-    (`flushDone`: the last deflate call of `compression_flush` returned Z_OK with room left in the
-    staging buffer, or Z_BUF_ERROR) it is the whole submitted stream and the queue is empty.
-
-    Missing with respect to `WriteTransparent`:
-    * the lower transport must accept every write completely — a short write drops the unsent
-      tail of the staging buffer (D22), EAGAIN makes the event loop deflate the element again (D23);
-    * the flush must fit: one deflate call is made per flush, so flush output beyond the
-      staging space stays inside zlib until later iterations (D30). -/
-theorem write_transparent_partial {C : Codec} (H : HDeflate C) (dontReset : Bool) (fuel : Nat)
-    (ops : List Op) (hall : ∀ op ∈ ops, op.allAccept)
-    (hconn : (run fuel (init C dontReset) ops).connected = true)
-    (hdiv : (run fuel (init C dontReset) ops).diverged = false) :
-    H.decode (run fuel (init C dontReset) ops).net <+: submitted ops ∧
-    (∀ pre sc, ops = pre ++ [Op.iter sc] →
-      (run fuel (init C dontReset) ops).flushDone = true →
-        H.decode (run fuel (init C dontReset) ops).net = submitted ops ∧
-        acked (run fuel (init C dontReset) ops) ops = (submitted ops).length) := by
-  refine ⟨Lemmas.Compression.write_safe H dontReset fuel ops hall ⟨hconn, hdiv⟩, ?_⟩
-  intro pre sc hops hfd
+/-- FULL STRENGTH: any codec satisfying H-zlib, any history, any partial-write / EAGAIN schedule. -/
+theorem write_transparent (C : Codec) (H : HDeflate C) : WriteTransparent C H := by
+  intro dr fuel ops hconn hdiv
+  refine ⟨Lemmas.Compression.write_safe H dr fuel ops ⟨hconn, hdiv⟩, ?_⟩
+  intro pre sc hops hall
   subst hops
-  obtain ⟨h1, h2⟩ := Lemmas.Compression.write_complete H dontReset fuel pre sc hall ⟨hconn, hdiv⟩ hfd
-  exact ⟨h1, by simp [acked, h2]⟩
+  obtain ⟨h1, h2⟩ := Lemmas.Compression.write_complete H dr fuel pre sc hall ⟨hconn, hdiv⟩
+  rw [h1]
+  simp [acked, h2]
 
-def a5000 : Bytes := List.replicate 5000 0x61
+/-- … and in such an iteration the queue is drained completely: the write loop has taken the
+    whole submitted stream -/
+theorem all_accepting_iteration_drains (C : Codec) (H : HDeflate C) (dontReset : Bool) (fuel : Nat)
+    (pre : List Op) (sc : List Accept) (hall : ∀ a ∈ sc, a = Accept.all)
+    (hconn : (run fuel (init C dontReset) (pre ++ [Op.iter sc])).connected = true)
+    (hdiv : (run fuel (init C dontReset) (pre ++ [Op.iter sc])).diverged = false) :
+    (run fuel (init C dontReset) (pre ++ [Op.iter sc])).queue = [] ∧
+    H.decode (run fuel (init C dontReset) (pre ++ [Op.iter sc])).net = submitted (pre ++ [Op.iter sc]) :=
+  let h := Lemmas.Compression.write_complete H dontReset fuel pre sc hall ⟨hconn, hdiv⟩
+  ⟨h.2, h.1⟩
 
-/-- D22: the lower transport takes 0 of the staged byte; the byte is dropped, the next element
-    arrives without it -/
-def witnessShortWrite : List Op := [.send [0x61], .iter [.upTo 0], .send [0x62], .iter []]
-/-- D23: EAGAIN while a 5000-byte element is half deflated; the element is deflated again -/
-def witnessEagain : List Op := [.send a5000, .iter [.again], .iter []]
-/-- D30: the lower transport takes everything, but 5000 bytes of flush output do not fit into the
-    4096-byte staging buffer -/
-def witnessBigFlush : List Op := [.send a5000, .iter []]
-
-set_option maxRecDepth 200000 in
-theorem write_transparent_fails_on_short_write : ¬ WriteTransparent toyA toyA_deflate := by
-  intro h
-  have h1 := (h false 10 witnessShortWrite (by decide +kernel) (by decide +kernel)).1
-  exact absurd h1 (by decide +kernel)
-
-set_option maxRecDepth 200000 in
-theorem write_transparent_fails_on_eagain : ¬ WriteTransparent toyA toyA_deflate := by
-  intro h
-  have h1 := (h false 10 witnessEagain (by decide +kernel) (by decide +kernel)).1
-  exact absurd h1 (by decide +kernel)
-
-set_option maxRecDepth 200000 in
-theorem write_transparent_fails_on_big_flush : ¬ WriteTransparent toyB toyB_deflate := by
-  intro h
-  have h1 := (h false 10 witnessBigFlush (by decide +kernel) (by decide +kernel)).2
-    [.send a5000] [] rfl (by simp)
-  exact absurd h1 (by decide +kernel)
-
-/-- the full-strength write statement does not hold -/
-theorem not_write_transparent : ¬ ∀ (C : Codec) (H : HDeflate C), WriteTransparent C H :=
-  fun h => write_transparent_fails_on_short_write (h toyA toyA_deflate)
-
-/-- FULL STRENGTH (false, D31): the write loop never tears the connection down unless the lower
-    transport reported a hard error. -/
+/-- The write loop never tears the connection down unless the lower transport reported a hard
+    error (in particular not for an empty element, EAGAIN, or a transport that accepts nothing). -/
 def NoSpuriousDisconnect (C : Codec) : Prop :=
   ∀ (dontReset : Bool) (fuel : Nat) (ops : List Op),
     (∀ op ∈ ops, ∀ sc, op = Op.iter sc → Accept.err ∉ sc) →
     (run fuel (init C dontReset) ops).diverged = false →
     (run fuel (init C dontReset) ops).connected = true
 
-set_option maxRecDepth 200000 in
-/-- D31: an empty element: deflate(Z_NO_FLUSH) without input reports Z_BUF_ERROR, which
-    `_compression_write` treats as fatal.  (No positive counterpart is proved: it would need
-    progress hypotheses about the codec and the exclusion of empty elements.) -/
-theorem spurious_disconnect_on_empty_send : ¬ NoSpuriousDisconnect toyA := by
-  intro h
-  have h1 := h false 10 [.send [0x61], .iter [], .send [], .iter []]
-    (by
-      intro op hop sc hsc
-      simp only [List.mem_cons, List.not_mem_nil, or_false] at hop
-      rcases hop with h | h | h | h <;> subst h <;> cases hsc <;> simp)
-    (by decide +kernel)
-  exact absurd h1 (by decide +kernel)
+theorem no_spurious_disconnect (C : Codec) (H : HDeflate C) : NoSpuriousDisconnect C := by
+  intro dr fuel ops hsc hdiv
+  exact Lemmas.Compression.no_spurious H fuel ops (init C dr) [] (Lemmas.Compression.init_inv H dr)
+    rfl rfl hsc hdiv
 
 /-! ### read side -/
 
-/-- FULL STRENGTH (false on the current tree).  For every codec satisfying H-zlib whose inflate
-    reports no error (a healthy stream), however the compressed bytes are cut into non-empty
-    fragments: the connection stays up and, once the application's loop has drained the socket
-    after the last fragment, the parser has been fed exactly the plaintext the received bytes
-    stand for. -/
+/-- For a healthy stream (inflate reports no error), however the compressed bytes are cut into
+    fragments: the connection stays up and, once the application's loop around xmpp_run_once has
+    come to rest after the last fragment, the parser has been fed exactly the plaintext the
+    received bytes stand for. -/
 def ReadTransparent (C : Codec) (HI : HInflate C) : Prop :=
-  (∀ i inp room, (C.inflate i inp room).2.2.2 = Gen.Zl.zOk ∨
-      (C.inflate i inp room).2.2.2 = Gen.Zl.zBufError) →
-  ∀ (dontReset : Bool) (wfuel fuel : Nat) (frags : List Bytes), (∀ f ∈ frags, f ≠ []) →
+  Lemmas.Compression.Healthy C →
+  ∀ (dontReset : Bool) (wfuel fuel : Nat) (frags : List Bytes),
     (rxAll wfuel fuel (init C dontReset) frags).1.diverged = false →
       (rxAll wfuel fuel (init C dontReset) frags).1.connected = true ∧
       (rxAll wfuel fuel (init C dontReset) frags).2 = HI.plain frags.flatten
 
-/-- What holds (any codec satisfying H-zlib, ANY fragmentation, fragments of any size, whole loop
-    iterations incl. their send halves): if the event loop is still connected after the last
-    fragment, `compression_pending` reports nothing and the last inflate call returned with room
-    left in the caller's buffer (`readDone`), the parser received exactly the plaintext of
-    everything that arrived.
+/-- FULL STRENGTH: any codec satisfying H-zlib, ANY fragmentation (1-byte fragments, fragments
+    that yield no plaintext, fragments that inflate to many read buffers), whole loop iterations
+    including their send halves (hence the deflate hypotheses). -/
+theorem read_transparent (C : Codec) (H : HDeflate C) (HI : HInflate C) : ReadTransparent C HI :=
+  fun hh dr wfuel fuel frags hd => Lemmas.Compression.read_ok H HI hh dr wfuel fuel frags hd
 
-    Missing with respect to `ReadTransparent`:
-    * "still connected" is a hypothesis: a read that yields no plaintext returns 0, which
-      xmpp_run_once treats as "closed by remote host" (D24);
-    * "nothing pending" is a hypothesis: xmpp_run_once returns when select() reports no event,
-      before it asks `intf->pending`; input left in the decompression buffer (a fragment that
-      inflates to more than 4096 bytes) waits for the next socket event (D33);
-    * `readDone`: when inflate fills the 4096-byte buffer with the last input byte, the rest of
-      the plaintext stays inside zlib and `compression_pending` reports nothing (D32). -/
-theorem read_transparent_partial {C : Codec} (HI : HInflate C) (dontReset : Bool) (wfuel fuel : Nat)
-    (frags : List Bytes)
-    (hconn : (rxAll wfuel fuel (init C dontReset) frags).1.connected = true)
-    (hdiv : (rxAll wfuel fuel (init C dontReset) frags).1.diverged = false)
-    (hpend : pending (rxAll wfuel fuel (init C dontReset) frags).1 = false)
-    (hdone : (rxAll wfuel fuel (init C dontReset) frags).1.readDone = true) :
-    (rxAll wfuel fuel (init C dontReset) frags).2 = HI.plain frags.flatten :=
-  Lemmas.Compression.read_ok HI dontReset wfuel fuel frags ⟨hconn, hdiv⟩ hpend hdone
-
-/-- input that inflate has not consumed yet is reported by `compression_pending` -/
+/-- input that inflate has not consumed yet is reported by `compression_pending` (and
+    xmpp_run_once counts it as an event) -/
 theorem pending_reports_buffered_input {C : Codec} (s : St C) (rest : Bytes) :
     pending { s with inPend := some rest } = true := rfl
 
-set_option maxRecDepth 200000 in
-/-- D24: the stream header arrives alone: inflate consumes it and yields nothing, read returns 0,
-    the event loop disconnects -/
-theorem read_transparent_fails_on_empty_yield : ¬ ReadTransparent toyA toyA_inflate := by
-  intro h
-  have h1 := (h toyA_inflate_never_errors false 10 10 [[0x78], [0x61]] (by decide) (by decide +kernel)).1
-  exact absurd h1 (by decide +kernel)
+/-- the two directions are independent: the read branch of an iteration leaves the deflate
+    stream, the staging buffer, the send queue and everything handed to the lower transport exactly
+    as the send half left them -/
+theorem reads_leave_write_side_alone {C : Codec} (fuel : Nat) (s : St C) :
+    ((runOnce fuel s).1.z, (runOnce fuel s).1.out, (runOnce fuel s).1.queue, (runOnce fuel s).1.sched,
+      (runOnce fuel s).1.net, (runOnce fuel s).1.calls) =
+    ((runOnceSend fuel s).z, (runOnceSend fuel s).out, (runOnceSend fuel s).queue,
+      (runOnceSend fuel s).sched, (runOnceSend fuel s).net, (runOnceSend fuel s).calls) :=
+  Lemmas.Compression.runOnce_wr fuel s
 
-set_option maxRecDepth 200000 in
-/-- D32: 3000 bytes that inflate to 6000, all input taken by the first inflate call: the first
-    4096 are delivered, nothing is pending, 1904 bytes stay behind inside the codec -/
-theorem read_transparent_fails_on_full_buffer : ¬ ReadTransparent toyB toyB_inflate := by
-  intro h
-  have h1 := (h toyB_inflate_never_errors false 10 10 [List.replicate 3000 0x61] (by decide)
-    (by decide +kernel)).2
-  exact absurd h1 (by decide +kernel)
+/-- … and the send half leaves the inflate stream, the decompression buffer and the unread
+    inbound bytes alone -/
+theorem writes_leave_read_side_alone {C : Codec} (fuel : Nat) (s : St C) :
+    ((runOnceSend fuel s).zi, (runOnceSend fuel s).inPend, (runOnceSend fuel s).inq,
+      (runOnceSend fuel s).inEof) = (s.zi, s.inPend, s.inq, s.inEof) :=
+  Lemmas.Compression.runOnceSend_rd fuel s
 
-set_option maxRecDepth 200000 in
-/-- D33: 3000 bytes that inflate to 6000, inflate stopping when the buffer is full: 952 input
-    bytes stay in the decompression buffer, `pending` says so, but with the socket drained the
-    event loop never asks -/
-theorem read_transparent_fails_on_pending_input : ¬ ReadTransparent toyC toyC_inflate := by
-  intro h
-  have h1 := (h toyC_inflate_never_errors false 10 10 [List.replicate 3000 0x61] (by decide)
-    (by decide +kernel)).2
-  exact absurd h1 (by decide +kernel)
+/-! ### teardown -/
 
-set_option maxRecDepth 200000 in
-/-- … and in that state `compression_pending` does report the input -/
-example : pending (rxAll 10 10 (init toyC false) [List.replicate 3000 0x61]).1 = true ∧
-    (rxAll 10 10 (init toyC false) [List.replicate 3000 0x61]).2.length = 4096 := by decide +kernel
-
-theorem not_read_transparent : ¬ ∀ (C : Codec) (HI : HInflate C), ReadTransparent C HI :=
-  fun h => read_transparent_fails_on_empty_yield (h toyA toyA_inflate)
-
-/-! ### teardown (D8) -/
-
-/-- FULL STRENGTH (false): `compression_free` releases everything `compression_init` allocated -/
+/-- `compression_free` releases everything `compression_init` allocated -/
 def FreeReleasesEverything : Prop := ∀ (C : Codec) (s : St C), liveBlocks (compressionFree s) = 0
 
-/-- the record `struct xmpp_compression` itself is never freed (the extractor reads the
-    `strophe_free*` calls of compression_free) -/
-theorem record_not_freed : Gen.Zl.compressionFreeFreesRecord = false := by decide
+/-- the record `struct xmpp_compression` itself is freed (the extractor reads the `strophe_free*`
+    calls of compression_free) -/
+theorem record_freed : Gen.Zl.compressionFreeFreesRecord = true := by decide
 
-theorem not_free_releases_everything : ¬ FreeReleasesEverything := by
-  intro h
-  have := h toyA (init toyA false)
-  exact absurd this (by decide)
+theorem free_releases_everything : FreeReleasesEverything := by
+  intro C s
+  simp [liveBlocks, compressionFree, record_freed]
 
-/-- what holds: both staging buffers are released, at most the record stays behind -/
-theorem free_releases_buffers_partial {C : Codec} (s : St C) :
-    (compressionFree s).cbufLive = false ∧ (compressionFree s).dbufLive = false ∧
-    liveBlocks (compressionFree s) ≤ 1 := by
-  refine ⟨rfl, rfl, ?_⟩
-  simp only [liveBlocks, compressionFree]
-  split <;> (cases s.recLive <;> simp)
+/-! ### non-vacuity, and the former counter-examples as regression checks -/
 
-/-! ### non-vacuity -/
-
-/-- H-zlib is satisfiable (two different codecs) -/
+/-- H-zlib is satisfiable (three different codecs) -/
 example : HDeflate toyA := toyA_deflate
 example : HInflate toyA := toyA_inflate
 example : HDeflate toyB := toyB_deflate
 example : HInflate toyB := toyB_inflate
 example : HInflate toyC := toyC_inflate
+example : Lemmas.Compression.Healthy toyA := toyA_inflate_never_errors
+example : Lemmas.Compression.Healthy toyB := toyB_inflate_never_errors
+example : Lemmas.Compression.Healthy toyC := toyC_inflate_never_errors
 
-/-- hypotheses of `write_transparent_partial` met by a non-trivial history (three elements, two
-    iterations, buffering codec): the server ends up with exactly the submitted stream -/
-example :
-    let ops : List Op := [.send [1, 2, 3], .send [4], .iter [], .send [5, 6], .iter [.all]]
-    (∀ op ∈ ops, op.allAccept) ∧
-    (run 10 (init toyB true) ops).connected = true ∧ (run 10 (init toyB true) ops).diverged = false ∧
-    (run 10 (init toyB true) ops).flushDone = true ∧
-    toyB_deflate.decode (run 10 (init toyB true) ops).net = [1, 2, 3, 4, 5, 6] := by
-  refine ⟨?_, by decide +kernel, by decide +kernel, by decide +kernel, by decide +kernel⟩
-  intro op hop
-  simp only [List.mem_cons, List.not_mem_nil, or_false] at hop
-  rcases hop with h | h | h | h | h <;> subst h <;> simp [Op.allAccept]
+def a5000 : Bytes := List.replicate 5000 0x61
+
+/-- D22 (was: a short write dropped the unsent tail of the staging buffer): the lower transport
+    takes 0 of the staged byte, then everything; the server gets both elements, in order -/
+example : let s := run 10 (init toyA false) [.send [0x61], .iter [.upTo 0], .send [0x62], .iter []]
+    s.connected = true ∧ s.diverged = false ∧ s.net = [0x61, 0x62] ∧ s.queue = [] := by decide +kernel
 
 set_option maxRecDepth 200000 in
-/-- an element larger than the staging buffer does get through a transport that accepts
-    everything when the codec does not hold data back (5000 bytes, two lower writes) -/
-example : (run 10 (init toyA false) [.send a5000, .iter []]).net = a5000 ∧
-    (run 10 (init toyA false) [.send a5000, .iter []]).calls = [(4096, 4096), (904, 904)] := by
+/-- D23 (was: EAGAIN in the middle of an element made the event loop deflate it again): 5000
+    bytes, EAGAIN when the full staging buffer is to be written; the write loop is told how far deflate got
+    (`written` = 4096) and resumes there -/
+example : let s := run 10 (init toyA false) [.send a5000, .iter [.again]]
+    s.connected = true ∧ s.queue = [(a5000, 4096)] ∧
+    (run 10 (init toyA false) [.send a5000, .iter [.again], .iter []]).net = a5000 := by
   decide +kernel
 
-/-- hypotheses of `read_transparent_partial` met: header and first byte together, then one more
-    fragment -/
-example :
-    (rxAll 10 10 (init toyA false) [[0x78, 0x61], [0x62]]).1.connected = true ∧
-    (rxAll 10 10 (init toyA false) [[0x78, 0x61], [0x62]]).1.readDone = true ∧
-    (rxAll 10 10 (init toyA false) [[0x78, 0x61], [0x62]]).2 = [0x61, 0x62] := by decide +kernel
+set_option maxRecDepth 200000 in
+/-- D30 (was: one deflate call per flush): 5000 bytes of flush output, 4096-byte staging buffer,
+    lower transport taking everything: all 5000 bytes are out at the end of the iteration -/
+example : (run 10 (init toyB false) [.send a5000, .iter []]).net = a5000 ∧
+    (run 10 (init toyB false) [.send a5000, .iter []]).calls = [(4096, 4096), (904, 904)] := by
+  decide +kernel
+
+/-- D31 (was: an empty element tore the connection down) -/
+example : let s := run 10 (init toyA false) [.send [0x61], .iter [], .send [], .iter []]
+    s.connected = true ∧ s.disc = 0 ∧ s.queue = [] ∧ s.net = [0x61] := by decide +kernel
+
+/-- D24 (was: a fragment that yields no plaintext closed the connection): the stream header
+    arrives alone -/
+example : let r := rxAll 10 10 (init toyA false) [[0x78], [0x61], [0x62]]
+    r.1.connected = true ∧ r.1.disc = 0 ∧ r.2 = [0x61, 0x62] := by decide +kernel
 
 set_option maxRecDepth 200000 in
-/-- an expanding fragment larger than one read buffer is delivered completely once another
-    fragment wakes the loop up: 2100 bytes → 4200, plus one more byte → 2 -/
+/-- D32 (was: plaintext left inside inflate when it filled the buffer with the last input byte):
+    3000 bytes that inflate to 6000, all input taken by the first inflate call -/
+example : let r := rxAll 10 10 (init toyB false) [List.replicate 3000 0x61]
+    r.1.connected = true ∧ r.2 = List.replicate 6000 0x61 ∧ pending r.1 = false := by decide +kernel
+
+set_option maxRecDepth 200000 in
+/-- D33 (was: xmpp_run_once ignored `intf->pending` without a socket event): 3000 bytes that
+    inflate to 6000, inflate stopping when the read buffer is full -/
+example : let r := rxAll 10 10 (init toyC false) [List.replicate 3000 0x61]
+    r.1.connected = true ∧ r.2 = List.replicate 6000 0x61 ∧ pending r.1 = false := by decide +kernel
+
+/-- D8 -/
+example : liveBlocks (compressionFree (init toyA false)) = 0 := by decide
+
+/-- a non-trivial history meeting the hypotheses of `write_transparent` under back-pressure:
+    three elements, a transport that takes 1 byte, then nothing, then EAGAIN, then everything -/
 example :
-    (rxAll 10 10 (init toyB false) [List.replicate 2100 7, [8]]).1.connected = true ∧
-    (rxAll 10 10 (init toyB false) [List.replicate 2100 7, [8]]).2.length = 4202 := by decide +kernel
+    let ops : List Op := [.send [1, 2, 3], .send [4], .iter [.upTo 1, .upTo 0], .send [5, 6],
+                          .iter [.again], .iter []]
+    (run 10 (init toyB true) ops).connected = true ∧ (run 10 (init toyB true) ops).diverged = false ∧
+    toyB_deflate.decode (run 10 (init toyB true) ops).net = [1, 2, 3, 4, 5, 6] ∧
+    toyB_deflate.decode (run 10 (init toyB true) (ops.take 3)).net = [1] := by decide +kernel
+
+/-- a hard error of the lower transport does end the connection (so `NoSpuriousDisconnect` is not
+    vacuously about a model that never disconnects) -/
+example : (run 10 (init toyA false) [.send [1], .iter [.err]]).connected = false := by decide +kernel
 
 end Strophe.C20
